@@ -5,12 +5,14 @@
 // ASSUME: progress of the quick-sort is probabilistic: when the chosen pivot is a minimum of the range and the first element is not equivalent to it, sort_helper re-pushes the SAME range unchanged (ob_sort_step states exactly this case); termination therefore holds with probability 1 over rand(), not for every pivot sequence
 // ASSUME: the algorithms are instantiated with a harness random-access iterator that addresses a fixed array by index (vf16::It) and reports any dereference outside the array as a failure; the range sorted is [1,n+1) of an array of n+2 elements, the two guards must stay untouched
 // OB: ob_sort_step tier=quick solver=cadical unwind=7 timeout=180 params=6 bounds="sort_helper::operator() once on a range of n = 0..5 symbolic bytes (cut-off 2), ANY pivot" desc="n <= cut-off: range sorted, nothing pushed. n > cut-off: at most two sub-ranges pushed, both non-empty, inside the range, disjoint and in order [first,p1) [p2,second) with p1 <= p2; every element of [first,p1) is less than every element of [p1,second); the elements of [p1,p2) are equivalent to each other and not greater than any element of [p2,second); the lower sub-range is strictly smaller than the range and so is the upper one unless it is the whole range re-pushed with the array unchanged; the range is a permutation of its input; guards untouched"
+// OB: ob_sort_progress tier=quick solver=cadical unwind=7 timeout=300 params=3 bounds="sort_helper::operator() on one range of n = 3..5 symbolic bytes (cut-off 2), run n times from the same input with rand() = 0, 1, .., n-1" desc="termination with probability 1: for EVERY input range at least one of the n pivot draws makes progress (every pushed sub-range is strictly smaller than the range); a pivot rule that can re-push the same range for every draw loops for ever on that input"
 #include "C16_env.h"
 #include "vf_standalone.h"
 
 // rand() draws from the harness value stream in BOTH builds (translated C and the native C++ replay build), so a
 // counterexample's pivot choices replay exactly
-extern "C" int rand() noexcept { return (int)(vf_nondet_u32() & 0x7fffffffu); }
+static int vfg_forced_rand = -1; // >= 0: the next draws return this value (ob_sort_progress)
+extern "C" int rand() noexcept { return vfg_forced_rand >= 0 ? vfg_forced_rand : (int)(vf_nondet_u32() & 0x7fffffffu); }
 
 namespace {
 constexpr unsigned MAXN = 7;
@@ -114,4 +116,26 @@ OB(sort_step) {
     VF_CHECKM(p2 == first && !haveL, "upper sub-range as large as the range only when it IS the range");
     vf16::unrolled<MAXN>(tot, [&](unsigned i) { VF_CHECKM(S::v[i] == in[i], "re-pushed whole range: array unchanged"); });
   }
+}
+
+OB(sort_progress) {
+  unsigned n = 3 + vf_param(0), tot = n + 2;
+  vf16::init(1, 2, 2, false);
+  uint8_t in[MAXN];
+  make_array(tot, in);
+  const int first = 1, second = (int)n + 1;
+  bool progress = false;
+  vf16::unrolled<5>(n, [&](unsigned draw) {
+    vf16::unrolled<MAXN>(tot, [&](unsigned i) { S::v[i] = in[i]; });
+    vfg_forced_rand = (int)draw;
+    galois::ParallelSTL::sort_helper<KeyLess> h((KeyLess()));
+    RecCtx ctx;
+    h(Range(It(first), It(second)), ctx);
+    bool smaller = true;
+    for (unsigned k = 0; k < ctx.k && k < 2; ++k)
+      if (ctx.p[k].second.i - ctx.p[k].first.i >= (int)n) smaller = false;
+    if (smaller) progress = true;
+  });
+  vfg_forced_rand = -1;
+  VF_CHECKM(progress, "no pivot draw makes progress on this range: the same range is re-pushed whatever rand() returns (the sort never terminates on this input)");
 }
